@@ -2,6 +2,909 @@
 //! glyf.rs / loca.rs (SimpleGlyph points, PointIter, resolve_coords_len, CompositeGlyph components / instructions, Anchor / Transform, Loca::get_raw / get_glyf / all_offsets_are_ascending)
 //! with Model/HandGlyf.lean (`hg.*` driver commands), on generator-based inputs with truncations and
 //! boundary fields; plus the group's own byte-level oracles.
+//!
+//! * `hg.points <glyph>`              `SimpleGlyph::read` + `num_points`, `has_overlapping_contours`, `points()`
+//! * `hg.fast <glyph> pl fl p mask`   `read_points_fast::<i32>` (buffer lengths `pl` / `fl`, flag buffer preset to `p`)
+//! * `hg.comp <glyph>`                `CompositeGlyph::read` + `components()`, `component_glyphs_and_flags()`,
+//!                                    `count_and_instructions()`, `instructions()`
+//! * `hg.loca l <loca> <glyf> | idx.. | gid..`   `Loca::read` + `len`, `is_empty`, `all_offsets_are_ascending`,
+//!                                    `get_raw`, `get_glyf`
+//! Oracles (model independent, the statements of Props/C01HandGlyf.lean on the real results):
+//! `points-bound`, `fast-len`, `components-bound`, `count-bound`, `instructions-inside`,
+//! `loca-slice-inside`, `loca-len`.
 use super::*;
+use font_types::{GlyphId, Point};
+use read_fonts::tables::glyf::{Anchor, CompositeGlyph, Glyf, PointFlags, PointMarker, SimpleGlyph};
+use read_fonts::tables::loca::Loca;
+use read_fonts::{FontData, FontRead, ReadError};
 
-pub fn run(_ctx: &mut Ctx) {}
+fn fnv(xs: impl Iterator<Item = u64>) -> u64 {
+    let mut h = 0xcbf2_9ce4_8422_2325u64;
+    for x in xs {
+        h = (h ^ x).wrapping_mul(0x0000_0100_0000_01b3);
+    }
+    h
+}
+
+/// `Drv.C01Iter.summary`: `<count> <hash> <first> <last>`
+fn summary(rows: &[Vec<u64>]) -> String {
+    let render = |r: &Vec<u64>| r.iter().map(|x| x.to_string()).collect::<Vec<_>>().join(":");
+    let first = rows.first().map(render).unwrap_or("-".into());
+    let last = rows.last().map(render).unwrap_or("-".into());
+    format!("{} {} {} {}", rows.len(), fnv(rows.iter().flatten().copied()), first, last)
+}
+
+fn err_str(e: &ReadError) -> String {
+    match e {
+        ReadError::OutOfBounds => "eO".into(),
+        ReadError::InvalidArrayLen => "eL".into(),
+        ReadError::MalformedData(_) => "eM".into(),
+        other => format!("e?{other:?}"),
+    }
+}
+
+fn be16(b: &[u8], p: usize) -> Option<u16> {
+    let s = b.get(p..p.checked_add(2)?)?;
+    Some(u16::from_be_bytes([s[0], s[1]]))
+}
+
+fn inside(s: &[u8], whole: &[u8]) -> bool {
+    let a = s.as_ptr() as usize;
+    let w = whole.as_ptr() as usize;
+    s.is_empty() || (a >= w && a + s.len() <= w + whole.len())
+}
+
+/// run `f` under catch_unwind; a panic is the `no-panic` failure, otherwise the response is recorded
+fn ask<T>(ctx: &mut Ctx, req: String, bytes: &[u8], f: impl FnOnce() -> (String, T)) -> Option<T> {
+    PROGRESS.fetch_add(1, Ordering::Relaxed);
+    match catch(f) {
+        Ok((resp, extra)) => {
+            ctx.oracle("no-panic", true, String::new, String::new);
+            ctx.case(req, resp);
+            Some(extra)
+        }
+        Err(m) => {
+            ctx.oracle("no-panic", false, || format!("{req} [{}]", hex(bytes)), || m.clone());
+            None
+        }
+    }
+}
+
+// ------------------------------------------------------------------------------------------------
+// simple glyphs
+
+/// a `PointFlags` value with the given bits (0x40 is not constructible through the public API)
+fn pf(p: u8) -> PointFlags {
+    let mut f = PointFlags::from_bits(p & 0x81);
+    for (bit, m) in [
+        (0x02u8, PointMarker::WEAK_INTERPOLATION),
+        (0x04, PointMarker::HAS_DELTA),
+        (0x08, PointMarker::NEAR),
+        (0x10, PointMarker::TOUCHED_X),
+        (0x20, PointMarker::TOUCHED_Y),
+    ] {
+        if p & bit != 0 {
+            f.set_marker(m);
+        }
+    }
+    f
+}
+
+/// the flag mask `read_points_fast` applies (0x01, or 0x81 with feature `spec_next`)
+fn probe_mask() -> u8 {
+    let g = [0u8, 1, 0, 0, 0, 0, 0, 0, 0, 0, 0, 0, 0, 0, 0xB1];
+    let g = SimpleGlyph::read(FontData::new(&g)).unwrap();
+    let mut p = [Point::<i32>::default(); 1];
+    let mut f = [PointFlags::default(); 1];
+    g.read_points_fast(&mut p, &mut f).unwrap();
+    f[0].to_bits()
+}
+
+/// reference scan of the flag bytes for `n` points: classification for the branch distribution only
+fn classify_simple(ctx: &mut Ctx, ends_last: Option<u16>, gd: &[u8]) {
+    let Some(last) = ends_last else {
+        ctx.count("pi.no-ends");
+        return;
+    };
+    if last == 0xFFFF {
+        ctx.count("pi.checked_add-none");
+        return;
+    }
+    let n = last as usize + 1;
+    let (mut p, mut left, mut x, mut y) = (0usize, n, 0usize, 0usize);
+    while left > 0 {
+        let Some(&f) = gd.get(p) else {
+            ctx.count("rcl.err-oob-flag");
+            return;
+        };
+        p += 1;
+        let mut rep = 1usize;
+        if f & 8 != 0 {
+            let Some(&r) = gd.get(p) else {
+                ctx.count("rcl.err-oob-repeat");
+                return;
+            };
+            p += 1;
+            rep = r as usize + 1;
+            ctx.count(match r {
+                0 => "rcl.repeat0",
+                1 => "rcl.repeat1",
+                255 => "rcl.repeat255",
+                _ => "rcl.repeat-other",
+            });
+        } else {
+            ctx.count("rcl.norepeat");
+        }
+        if rep > left {
+            ctx.count("rcl.err-malformed");
+            return;
+        }
+        ctx.count(if f & 2 != 0 { if f & 0x10 != 0 { "delta.x-short-pos" } else { "delta.x-short-neg" } } else if f & 0x10 == 0 { "delta.x-long" } else { "delta.x-same" });
+        ctx.count(if f & 4 != 0 { if f & 0x20 != 0 { "delta.y-short-pos" } else { "delta.y-short-neg" } } else if f & 0x20 == 0 { "delta.y-long" } else { "delta.y-same" });
+        x += rep * if f & 2 != 0 { 1 } else if f & 0x10 == 0 { 2 } else { 0 };
+        y += rep * if f & 4 != 0 { 1 } else if f & 0x20 == 0 { 2 } else { 0 };
+        left -= rep;
+    }
+    if gd.len() < p + x + y {
+        ctx.count("pi.data-too-short");
+    } else {
+        ctx.count("pi.some");
+    }
+}
+
+/// classification of the flag loop of `read_points_fast`
+fn classify_fast(ctx: &mut Ctx, n: usize, gd: &[u8]) {
+    let avail = n.min(gd.len());
+    let mut it = gd[..avail].iter();
+    let mut i = 0usize;
+    loop {
+        let Some(&f) = it.next() else {
+            ctx.count(if i < n { "ff.flags-exhausted" } else { "ff.empty" });
+            return;
+        };
+        if f & 8 != 0 {
+            let Some(&r) = it.next() else {
+                ctx.count("ff.err-repeat-eof");
+                return;
+            };
+            let c = (r as usize + 1).min(n - i);
+            ctx.count(if c < r as usize + 1 { "ff.repeat-clamped" } else { "ff.repeat" });
+            i += c;
+        } else {
+            ctx.count("ff.plain");
+            i += 1;
+        }
+        if i == n {
+            ctx.count("ff.break");
+            return;
+        }
+    }
+}
+
+fn ask_points(ctx: &mut Ctx, bytes: &[u8]) -> Option<usize> {
+    let r = ask(ctx, format!("hg.points {}", hex(bytes)), bytes, || match SimpleGlyph::read(FontData::new(bytes)) {
+        Err(_) => ("err".to_string(), None),
+        Ok(g) => {
+            let n = g.num_points();
+            let ov = g.has_overlapping_contours();
+            let gd = g.glyph_data();
+            let mut rows: Vec<Vec<u64>> = vec![];
+            let mut cnt = 0usize;
+            for p in g.points() {
+                cnt += 1;
+                if cnt > 70000 {
+                    break;
+                }
+                rows.push(vec![p.x as u16 as u64, p.y as u16 as u64, p.on_curve as u64]);
+            }
+            let last = g.end_pts_of_contours().last().map(|e| e.get());
+            (format!("{n} {} {}", ov as u8, summary(&rows)), Some((n, cnt, gd.to_vec(), last)))
+        }
+    })?;
+    match r {
+        None => {
+            ctx.count("simple.read-err");
+            None
+        }
+        Some((n, cnt, gd, last)) => {
+            // Props: points_exact, numPoints_bounded
+            ctx.oracle(
+                "points-bound",
+                n <= 65536 && (cnt == 0 || cnt == n) && cnt <= 65535 && cnt <= 256 * gd.len(),
+                || format!("hg.points {}", hex(bytes)),
+                || format!("num_points {n}, points() yielded {cnt}, glyph_data {} bytes", gd.len()),
+            );
+            ctx.count(if n == 0 { "np.zero" } else { "np.some" });
+            ctx.count(match gd.first() {
+                None => "ov.no-data",
+                Some(f) if f & 0x40 != 0 => "ov.set",
+                _ => "ov.clear",
+            });
+            ctx.count(if cnt == 0 { "points.empty" } else if cnt > 256 { "points.large" } else { "points.some" });
+            classify_simple(ctx, last, &gd);
+            Some(n)
+        }
+    }
+}
+
+fn ask_fast(ctx: &mut Ctx, bytes: &[u8], pl: usize, fl: usize, p: u8, mask: u8) {
+    let req = format!("hg.fast {} {pl} {fl} {p} {mask}", hex(bytes));
+    let r = ask(ctx, req.clone(), bytes, || match SimpleGlyph::read(FontData::new(bytes)) {
+        Err(_) => ("err".to_string(), None),
+        Ok(g) => {
+            let mut pts: Vec<Point<i32>> = vec![Point::default(); pl];
+            let mut fls: Vec<PointFlags> = vec![pf(p); fl];
+            let n = g.num_points();
+            let gd = g.glyph_data().to_vec();
+            match g.read_points_fast(&mut pts, &mut fls) {
+                Err(e) => (err_str(&e), Some((n, false, gd))),
+                Ok(()) => {
+                    let rows: Vec<Vec<u64>> = pts.iter().zip(&fls).map(|(q, f)| vec![q.x as u32 as u64, q.y as u32 as u64, f.to_bits() as u64]).collect();
+                    (format!("ok {}", summary(&rows)), Some((n, true, gd)))
+                }
+            }
+        }
+    });
+    if let Some(Some((n, ok, gd))) = r {
+        // Props: readPointsFast_safe — Ok only for buffers of exactly num_points entries
+        ctx.oracle("fast-len", !ok || (pl == n && fl == n), || req.clone(), || format!("Ok for buffers {pl}/{fl}, num_points {n}"));
+        if pl != n || fl != n {
+            ctx.count("fast.err-len");
+        } else {
+            ctx.count(if ok { "fast.ok" } else { "fast.err-oob" });
+            classify_fast(ctx, n, &gd);
+        }
+    }
+}
+
+/// all cases of one simple-glyph byte string
+fn simple_cases(ctx: &mut Ctx, bytes: &[u8], mask: u8, k: usize) {
+    let Some(n) = ask_points(ctx, bytes) else {
+        return;
+    };
+    // (the model's buffers are lists: keep the number of cases with tens of thousands of points small)
+    if n > 2000 && k % 16 != 0 {
+        return;
+    }
+    if n <= 200 || k % 2 == 0 {
+        ask_fast(ctx, bytes, n, n, 0, mask);
+    }
+    if n > 200 && k % 2 == 0 {
+        return;
+    }
+    match (k / 2) % 8 {
+        0 => ask_fast(ctx, bytes, n, n, 0x36, mask),
+        1 => ask_fast(ctx, bytes, n, n, 0x01, mask),
+        2 => ask_fast(ctx, bytes, n.saturating_sub(1), n, 0, mask),
+        3 => ask_fast(ctx, bytes, n, n + 1, 0, mask),
+        4 => ask_fast(ctx, bytes, n, n, 0xB7 & !0x40, mask),
+        5 => ask_fast(ctx, bytes, n + 1, n + 1, 0, mask),
+        6 => ask_fast(ctx, bytes, n, n, 0x30, mask),
+        _ => ask_fast(ctx, bytes, 0, 0, 0x06, mask),
+    }
+}
+
+// ------------------------------------------------------------------------------------------------
+// composite glyphs
+
+fn ask_comp(ctx: &mut Ctx, bytes: &[u8]) {
+    let req = format!("hg.comp {}", hex(bytes));
+    let r = ask(ctx, req.clone(), bytes, || match CompositeGlyph::read(FontData::new(bytes)) {
+        Err(_) => ("err".to_string(), None),
+        Ok(g) => {
+            let cd = g.component_data();
+            let cap = cd.len() + 2;
+            let mut rows: Vec<Vec<u64>> = vec![];
+            for c in g.components().take(cap) {
+                let mut r = vec![c.flags.bits() as u64, c.glyph.to_u16() as u64];
+                match c.anchor {
+                    Anchor::Offset { x, y } => r.extend([1, x as u16 as u64, y as u16 as u64]),
+                    Anchor::Point { base, component } => r.extend([2, base as u64, component as u64]),
+                }
+                for v in [c.transform.xx, c.transform.yx, c.transform.xy, c.transform.yy] {
+                    r.push(v.to_bits() as u16 as u64);
+                }
+                rows.push(r);
+            }
+            let gf: Vec<Vec<u64>> = g.component_glyphs_and_flags().take(cap).map(|(gid, f)| vec![gid.to_u16() as u64, f.bits() as u64]).collect();
+            let (count, instr) = g.count_and_instructions();
+            let instr2 = g.instructions();
+            let show = |i: Option<&[u8]>| match i {
+                None => "n".to_string(),
+                Some(s) => format!("{}:{}", s.len(), fnv(s.iter().map(|b| *b as u64))),
+            };
+            let ins_ok = instr.map(|s| inside(s, cd)).unwrap_or(true) && instr2.map(|s| inside(s, cd)).unwrap_or(true);
+            (
+                format!("{} | {} | {count} {} {}", summary(&rows), summary(&gf), show(instr), show(instr2)),
+                Some((cd.to_vec(), rows, gf.len(), count, ins_ok, instr.is_some())),
+            )
+        }
+    });
+    match r {
+        None => {}
+        Some(None) => ctx.count("comp.read-err"),
+        Some(Some((cd, rows, ngf, count, ins_ok, has_instr))) => {
+            // Props: components_bounded, countAndInstructions_safe
+            ctx.oracle("components-bound", rows.len() <= cd.len() / 6, || req.clone(), || format!("{} components from {} bytes", rows.len(), cd.len()));
+            ctx.oracle("count-bound", ngf <= (cd.len() + 2) / 6 && count == ngf, || req.clone(), || format!("{ngf} items, count {count}, {} bytes", cd.len()));
+            ctx.oracle("instructions-inside", ins_ok, || req.clone(), || "instruction slice outside component_data()".into());
+            // branch distribution (reference walk over the records)
+            let mut p = 0usize;
+            let mut cur = 0u16;
+            let mut yielded = 0usize;
+            loop {
+                let Some(f) = be16(&cd, p) else {
+                    ctx.count("comp.flags-read-fails");
+                    p += 2;
+                    break;
+                };
+                let f = f & 0x1FEF;
+                cur = f;
+                if be16(&cd, p + 2).is_none() {
+                    ctx.count("comp.gid-read-fails");
+                    p += 4;
+                    break;
+                }
+                ctx.count(match (f & 2 != 0, f & 1 != 0) {
+                    (true, true) => "anchor.offset-words",
+                    (true, false) => "anchor.offset-bytes",
+                    (false, true) => "anchor.point-words",
+                    (false, false) => "anchor.point-bytes",
+                });
+                let t = if f & 8 != 0 { 2 } else if f & 0x40 != 0 { 4 } else if f & 0x80 != 0 { 8 } else { 0 };
+                ctx.count(match t {
+                    2 => "transform.scale",
+                    4 => "transform.xy-scale",
+                    8 => "transform.2x2",
+                    _ => "transform.none",
+                });
+                let end = p + 4 + if f & 1 != 0 { 4 } else { 2 } + t;
+                if end > cd.len() {
+                    ctx.count(if yielded == rows.len() { "comp.args-read-fail" } else { "comp.args-read-fail?" });
+                } else {
+                    yielded += 1;
+                }
+                p = end;
+                if f & 0x20 == 0 {
+                    ctx.count("comp.last-without-more");
+                    break;
+                }
+            }
+            ctx.count(if cur & 0x100 == 0 {
+                "ci.no-instruction-flag"
+            } else if has_instr {
+                "ci.instructions"
+            } else if be16(&cd, p).is_none() {
+                "ci.length-read-fails"
+            } else {
+                "ci.array-read-fails"
+            });
+            ctx.count(match rows.len() {
+                0 => "comp.items0",
+                1 => "comp.items1",
+                _ => "comp.items2+",
+            });
+        }
+    }
+}
+
+// ------------------------------------------------------------------------------------------------
+// loca
+
+fn ask_loca(ctx: &mut Ctx, long: bool, loca_b: &[u8], glyf_b: &[u8], idxs: &[usize], gids: &[u32]) {
+    let req = format!("hg.loca {} {} {} | {} | {}", long as u8, hex(loca_b), hex(glyf_b), join(idxs), join(gids));
+    let all = [loca_b, glyf_b].concat();
+    let r = ask(ctx, req.clone(), &all, || {
+        let glyf = Glyf::read(FontData::new(glyf_b)).expect("Glyf::read");
+        match Loca::read(FontData::new(loca_b), long) {
+            Err(e) => (err_str(&e), None),
+            Ok(loca) => {
+                let raws: Vec<String> = idxs.iter().map(|i| loca.get_raw(*i).map(|v| v.to_string()).unwrap_or("-".into())).collect();
+                let mut slice_ok = true;
+                let mut kinds: Vec<&'static str> = vec![];
+                let ggs: Vec<String> = gids
+                    .iter()
+                    .map(|g| match loca.get_glyf(GlyphId::new(*g), &glyf) {
+                        Err(e) => {
+                            kinds.push("gg.err");
+                            err_str(&e)
+                        }
+                        Ok(None) => {
+                            kinds.push("gg.none");
+                            "n".into()
+                        }
+                        Ok(Some(gl)) => {
+                            kinds.push("gg.glyph");
+                            let d = gl.offset_data().as_bytes();
+                            slice_ok &= !d.is_empty() && inside(d, glyf_b);
+                            let a = d.as_ptr() as usize - glyf_b.as_ptr() as usize;
+                            format!("s{}:{}", a, a + d.len())
+                        }
+                    })
+                    .collect();
+                let entries = loca_b.len() / if long { 4 } else { 2 };
+                let len_ok = loca.len() == entries.saturating_sub(1) && loca.is_empty() == (loca.len() == 0);
+                (
+                    format!("{} {} {} | {} | {}", loca.len(), loca.is_empty() as u8, loca.all_offsets_are_ascending() as u8, join(&raws), join(&ggs)),
+                    Some((slice_ok, len_ok, kinds, loca.all_offsets_are_ascending())),
+                )
+            }
+        }
+    });
+    match r {
+        None => {}
+        Some(None) => ctx.count("loca.read-err"),
+        Some(Some((slice_ok, len_ok, kinds, asc))) => {
+            // Props: getGlyf_range, locaRead_total
+            ctx.oracle("loca-slice-inside", slice_ok, || req.clone(), || "get_glyf handed out an empty slice or one outside the glyf table".into());
+            ctx.oracle("loca-len", len_ok, || req.clone(), || "len() / is_empty() disagree with the entry count".into());
+            ctx.count(if long { "loca.long" } else { "loca.short" });
+            ctx.count(if asc { "loca.ascending" } else { "loca.not-ascending" });
+            for k in kinds {
+                ctx.count(k);
+            }
+        }
+    }
+}
+
+// ------------------------------------------------------------------------------------------------
+// generators (after hand/glyfx.rs)
+
+fn coord(rng: &mut Rng, short_bit: u8, same_bit: u8) -> (u8, Vec<u8>) {
+    match rng.below(6) {
+        0 => (same_bit, vec![]),
+        1 | 2 => {
+            let v = *rng.pick(&[0u8, 1, 2, 100, 127, 128, 254, 255]);
+            if rng.chance(1, 2) { (short_bit | same_bit, vec![v]) } else { (short_bit, vec![v]) }
+        }
+        _ => {
+            let v: i16 = match rng.below(5) {
+                0 => i16::MAX,
+                1 => i16::MIN,
+                2 => rng.next() as i16,
+                _ => rng.range(-600, 600) as i16,
+            };
+            (0, v.to_be_bytes().to_vec())
+        }
+    }
+}
+
+/// a well formed simple glyph (count / length fields registered)
+fn simple_glyph(rng: &mut Rng, n_points: usize, n_contours: usize, instr_len: usize) -> B {
+    let mut b = B::new();
+    b.f16(n_contours as u16);
+    for _ in 0..4 {
+        b.i16(rng.range(-2000, 2000) as i16);
+    }
+    let mut ends: Vec<u16> = vec![];
+    if n_contours > 0 {
+        let mut cuts: Vec<usize> = (0..n_contours - 1).map(|_| rng.below(n_points.max(1) as u64) as usize).collect();
+        cuts.sort();
+        for c in cuts {
+            ends.push(c as u16);
+        }
+        ends.push(n_points.saturating_sub(1) as u16);
+    }
+    for e in &ends {
+        b.f16(*e);
+    }
+    b.f16(instr_len as u16);
+    b.bytes(&rng.bytes(instr_len));
+    let n = if n_contours > 0 { n_points.max(1) } else { 0 };
+    let mut flags: Vec<u8> = vec![];
+    let mut xs: Vec<Vec<u8>> = vec![];
+    let mut ys: Vec<Vec<u8>> = vec![];
+    let mut i = 0;
+    while i < n {
+        let (fx, bx) = coord(rng, 2, 0x10);
+        let (fy, by) = coord(rng, 4, 0x20);
+        let mut f = fx | fy | (rng.below(2) as u8);
+        if i == 0 && rng.chance(1, 3) {
+            f |= 0x40;
+        }
+        if rng.chance(1, 8) {
+            f |= 0x80;
+        }
+        let run = if rng.chance(1, 3) { 1 + rng.below(((n - i).min(300)) as u64) as usize } else { 1 };
+        for _ in 0..run {
+            flags.push(f);
+            xs.push(bx.clone());
+            ys.push(by.clone());
+        }
+        i += run;
+    }
+    let mut k = 0;
+    while k < flags.len() {
+        let mut run = 1;
+        while k + run < flags.len() && flags[k + run] == flags[k] && run < 256 {
+            run += 1;
+        }
+        if run > 1 && rng.chance(3, 4) {
+            let run = if rng.chance(1, 4) { 1 + rng.below(run as u64) as usize } else { run };
+            if run > 1 || rng.chance(1, 2) {
+                // (a run of one written as `flag|REPEAT, 0` is legal too)
+                b.u8(flags[k] | 8).f8((run - 1) as u8);
+            } else {
+                b.u8(flags[k]);
+            }
+            k += run;
+        } else {
+            b.u8(flags[k]);
+            k += 1;
+        }
+    }
+    for v in &xs {
+        b.bytes(v);
+    }
+    for v in &ys {
+        b.bytes(v);
+    }
+    b
+}
+
+fn component_record(rng: &mut Rng, flags: u16) -> Vec<u8> {
+    let mut v = vec![];
+    v.extend_from_slice(&flags.to_be_bytes());
+    v.extend_from_slice(&(*rng.pick(&[0u16, 1, 5, 0xFFFE, 0xFFFF])).to_be_bytes());
+    if flags & 1 != 0 {
+        for _ in 0..2 {
+            v.extend_from_slice(&(*rng.pick(&[0u16, 1, 127, 128, 255, 256, 0x7FFF, 0x8000, 0xFF80, 0xFF7F, 0xFFFF])).to_be_bytes());
+        }
+    } else {
+        for _ in 0..2 {
+            v.push(*rng.pick(&[0u8, 1, 127, 128, 255]));
+        }
+    }
+    let n = if flags & 0x08 != 0 {
+        1
+    } else if flags & 0x40 != 0 {
+        2
+    } else if flags & 0x80 != 0 {
+        4
+    } else {
+        0
+    };
+    for _ in 0..n {
+        v.extend_from_slice(&(*rng.pick(&[0x4000u16, 0, 0x2000, 0xC000, 0x7FFF, 0x8000])).to_be_bytes());
+    }
+    v
+}
+
+const STRUCT_BITS: [u16; 6] = [0x0001, 0x0002, 0x0008, 0x0040, 0x0080, 0x0100];
+
+fn composite_glyph(rng: &mut Rng, comp_flags: &[u16], instr: Option<usize>, dangling_more: bool) -> B {
+    let mut b = B::new();
+    b.f16(0xFFFF);
+    for _ in 0..4 {
+        b.i16(rng.range(-2000, 2000) as i16);
+    }
+    let n = comp_flags.len();
+    for (i, f) in comp_flags.iter().enumerate() {
+        let last = i + 1 == n;
+        let mut flags = *f & !0x0020;
+        if !last || dangling_more {
+            flags |= 0x0020;
+        }
+        if last && instr.is_some() {
+            flags |= 0x0100;
+        }
+        let c = component_record(rng, flags);
+        let at = b.len();
+        b.bytes(&c);
+        b.mark(at, 2);
+    }
+    if let Some(n) = instr {
+        b.f16(n as u16);
+        b.bytes(&rng.bytes(n));
+    }
+    b
+}
+
+fn random_comp_flags(rng: &mut Rng) -> u16 {
+    let mut f = 0u16;
+    for bit in STRUCT_BITS {
+        if rng.chance(1, 3) {
+            f |= bit;
+        }
+    }
+    if rng.chance(1, 3) {
+        f |= (rng.next() as u16) & 0xFE14;
+    }
+    f
+}
+
+/// the variants of a generated input: itself, every prefix (a spread of prefixes for long inputs),
+/// every registered field at boundary values, a few random flips
+fn variants(rng: &mut Rng, b: &B, flips: usize) -> Vec<Vec<u8>> {
+    let base = &b.v;
+    let n = base.len();
+    let mut out = vec![base.clone()];
+    let mut cuts: Vec<usize> = vec![];
+    if n <= 96 {
+        cuts.extend(0..n);
+    } else {
+        cuts.extend(0..40);
+        cuts.extend(n - 24..n);
+        for (p, w) in &b.fields {
+            cuts.push((*p).min(n - 1));
+            cuts.push((*p + *w as usize).min(n - 1));
+        }
+        for _ in 0..16 {
+            cuts.push(rng.below(n as u64) as usize);
+        }
+        cuts.sort();
+        cuts.dedup();
+    }
+    for c in cuts {
+        out.push(base[..c].to_vec());
+    }
+    for (p, w) in &b.fields {
+        let (p, w) = (*p, *w as usize);
+        if p + w > n {
+            continue;
+        }
+        let max = (1u64 << (8 * w)) - 1;
+        let mut cur = 0u64;
+        for i in 0..w {
+            cur = (cur << 8) | base[p + i] as u64;
+        }
+        let rest = (n - p) as u64;
+        let mut vals = vec![0, 1, max - 1, max, max / 2, max / 2 + 1, n as u64, rest, rest + 1, rest / 2, cur.wrapping_add(1), cur.wrapping_sub(1), cur.wrapping_mul(2)];
+        vals.sort();
+        vals.dedup();
+        for v in vals {
+            let v = v & max;
+            if v == cur {
+                continue;
+            }
+            let mut m = base.clone();
+            for i in 0..w {
+                m[p + i] = (v >> (8 * (w - 1 - i))) as u8;
+            }
+            out.push(m);
+        }
+    }
+    for _ in 0..flips {
+        if n == 0 {
+            break;
+        }
+        let mut m = base.clone();
+        for _ in 0..1 + rng.below(3) {
+            let p = rng.below(n as u64) as usize;
+            m[p] = match rng.below(4) {
+                0 => 0,
+                1 => 0xFF,
+                2 => m[p] ^ (1 << rng.below(8)),
+                _ => rng.next() as u8,
+            };
+        }
+        out.push(m);
+    }
+    out
+}
+
+pub fn run(ctx: &mut Ctx) {
+    let t = ctx.thorough;
+    let mask = probe_mask();
+    ctx.count(&format!("fast.mask-{mask:#x}"));
+    let mut k = 0usize;
+
+    // --- simple glyphs: generated, with all variants
+    let rounds = if t { 120 } else { 22 };
+    for round in 0..rounds {
+        let n_contours = match round % 7 {
+            0 => 0,
+            1 => 1,
+            _ => 1 + ctx.rng.below(3) as usize,
+        };
+        let n_points = match round % 9 {
+            0 => 1,
+            8 => 257 + ctx.rng.below(300) as usize,
+            5 => 30 + ctx.rng.below(40) as usize,
+            _ => 1 + ctx.rng.below(9) as usize,
+        };
+        let instr_len = if round % 3 == 0 { ctx.rng.below(4) as usize } else { 0 };
+        let mut b = simple_glyph(&mut ctx.rng, n_points, n_contours, instr_len);
+        if round % 4 == 1 {
+            b.bytes(&rbytes(&mut ctx.rng, 5));
+        }
+        let vs = variants(&mut ctx.rng, &b, if t { 24 } else { 8 });
+        for v in &vs {
+            simple_cases(ctx, v, mask, k);
+            k += 1;
+        }
+        ctx.count("gen.simple");
+    }
+    // --- hostile end point arrays / repeat runs in a few bytes
+    for last in [0u16, 1, 254, 255, 256, 257, 511, 0x7FFF, 0xFFFE, 0xFFFF] {
+        for flag in [0x39u8, 0x38, 0x08, 0x3F, 0x0E, 0x1A, 0x2C] {
+            for rep in [0u8, 1, 254, 255] {
+                let mut v = vec![0, 1, 0, 0, 0, 0, 0, 0, 0, 0];
+                v.extend_from_slice(&last.to_be_bytes());
+                v.extend_from_slice(&[0, 0]);
+                let runs = (last as usize + 1).div_ceil(rep as usize + 1);
+                // (a few hundred bytes at most: the model's list cursors are linear in the position)
+                for _ in 0..runs.min(if last > 600 && (flag & 0x36) != 0x30 { 40 } else { 300 }) {
+                    v.push(flag);
+                    v.push(rep);
+                }
+                if flag & 2 != 0 || flag & 4 != 0 {
+                    let per = (flag & 2 != 0) as usize + (flag & 4 != 0) as usize;
+                    v.resize(v.len() + per * (last as usize + 1).min(300), 1);
+                }
+                simple_cases(ctx, &v, mask, k);
+                k += 1;
+                for cut in [v.len().saturating_sub(1), 15, 14] {
+                    if cut < v.len() {
+                        simple_cases(ctx, &v[..cut], mask, k);
+                        k += 1;
+                    }
+                }
+            }
+        }
+    }
+    ctx.count("gen.simple-hostile-runs");
+    // non monotone / duplicated / maximal contour ends
+    for ends in [[5u16, 2, 9], [9, 9, 9], [0xFFFF, 0, 3], [3, 0xFFFF, 0], [0, 0, 0], [3, 2, 0xFFFF], [0xFFFE, 0xFFFF, 0xFFFE]] {
+        let mut v = vec![0, 3, 0, 0, 0, 0, 0, 0, 0, 0];
+        for e in ends {
+            v.extend_from_slice(&e.to_be_bytes());
+        }
+        v.extend_from_slice(&[0, 0]);
+        v.extend_from_slice(&[0x37; 12]);
+        for cut in (13..=v.len()).rev() {
+            simple_cases(ctx, &v[..cut], mask, k);
+            k += 1;
+        }
+    }
+    ctx.count("gen.simple-hostile-ends");
+    // every coordinate-decoding flag x a few repeat bytes on a 3 point glyph, whole and truncated
+    for flag in (0..64u8).chain([0x77, 0xB7, 0xC8, 0xFF]) {
+        for rep in [0u8, 1, 2, 255] {
+            let mut v = vec![0, 1, 0, 0, 0, 0, 0, 0, 0, 0, 0, 2, 0, 0];
+            v.push(flag);
+            v.push(rep);
+            v.extend_from_slice(&[0x31, 0x31, 1, 2, 3, 4, 5, 6, 7, 8, 9, 10, 11, 12]);
+            simple_cases(ctx, &v, mask, k);
+            simple_cases(ctx, &v[..v.len() - 9], mask, k + 3);
+            k += 1;
+        }
+    }
+    ctx.count("gen.simple-flag-sweep");
+
+    // --- composite glyphs: every structural flag combination
+    for combo in 0..64u16 {
+        let mut f = 0u16;
+        for (i, bit) in STRUCT_BITS.iter().enumerate() {
+            if combo & (1 << i) != 0 {
+                f |= bit;
+            }
+        }
+        let shapes = if t { 3 } else { 1 + (combo % 2) as usize };
+        for shape in 0..shapes {
+            let b = match (shape + combo as usize) % 3 {
+                0 => composite_glyph(&mut ctx.rng, &[f], (f & 0x100 != 0).then_some(3), false),
+                1 => composite_glyph(&mut ctx.rng, &[f, f ^ 0x3], (f & 0x100 != 0).then_some(0), false),
+                _ => composite_glyph(&mut ctx.rng, &[f], None, true),
+            };
+            for v in variants(&mut ctx.rng, &b, if t { 16 } else { 4 }) {
+                ask_comp(ctx, &v);
+            }
+        }
+        ctx.count("gen.composite-combo");
+    }
+    let rounds = if t { 240 } else { 36 };
+    for round in 0..rounds {
+        let n = 1 + ctx.rng.below(if round % 6 == 0 { 30 } else { 4 }) as usize;
+        let flags: Vec<u16> = (0..n).map(|_| random_comp_flags(&mut ctx.rng)).collect();
+        let instr = match round % 4 {
+            0 => Some(ctx.rng.below(8) as usize),
+            1 => Some(0),
+            _ => None,
+        };
+        let b = composite_glyph(&mut ctx.rng, &flags, instr, round % 5 == 4);
+        for v in variants(&mut ctx.rng, &b, if t { 16 } else { 6 }) {
+            ask_comp(ctx, &v);
+        }
+        ctx.count("gen.composite-random");
+    }
+    // anchors: byte / word value classes, both interpretations
+    for flags in [0x0000u16, 0x0002, 0x0001, 0x0003] {
+        for a in (0..=255u8).step_by(if t { 1 } else { 5 }).chain([0x7F, 0x80, 0xFF]) {
+            let mut v = vec![0xFF, 0xFF, 0, 0, 0, 0, 0, 0, 0, 0];
+            v.extend_from_slice(&flags.to_be_bytes());
+            v.extend_from_slice(&[0, 7]);
+            if flags & 1 != 0 {
+                v.extend_from_slice(&[a, 0x80, 0x7F ^ a, a]);
+            } else {
+                v.extend_from_slice(&[a, 255 - a]);
+            }
+            ask_comp(ctx, &v);
+        }
+    }
+    ctx.count("gen.composite-anchors");
+
+    // --- loca
+    let rounds = if t { 400 } else { 56 };
+    for round in 0..rounds {
+        let n = ctx.rng.below(7) as usize;
+        let long = round % 2 == 0;
+        let mut glyf: Vec<u8> = vec![];
+        let mut offs: Vec<u32> = vec![0];
+        for _ in 0..n {
+            let g = match ctx.rng.below(5) {
+                0 => vec![],
+                1 | 2 => {
+                    let np = 1 + ctx.rng.below(6) as usize;
+                    let nc = 1 + ctx.rng.below(2) as usize;
+                    simple_glyph(&mut ctx.rng, np, nc, 0).v
+                }
+                3 => {
+                    let f = random_comp_flags(&mut ctx.rng);
+                    composite_glyph(&mut ctx.rng, &[f], None, false).v
+                }
+                _ => rbytes(&mut ctx.rng, 14),
+            };
+            glyf.extend_from_slice(&g);
+            if !long && glyf.len() % 2 == 1 {
+                glyf.push(0);
+            }
+            offs.push(glyf.len() as u32);
+        }
+        match (round / 2) % 8 {
+            1 => offs.reverse(),
+            2 => offs.push(glyf.len() as u32 + 2),
+            3 if offs.len() > 2 => offs.swap(1, 2),
+            4 => offs.push(if long { u32::MAX } else { 0x1FFFE }),
+            _ => {}
+        }
+        let mut loca = B::new();
+        for o in &offs {
+            if long {
+                loca.f32(*o);
+            } else {
+                loca.f16((*o / 2) as u16);
+            }
+        }
+        if (round / 2) % 8 == 5 {
+            loca.u8(ctx.rng.next() as u8);
+        }
+        let entries = offs.len();
+        let mut idxs: Vec<usize> = (0..entries + 2).collect();
+        idxs.extend([usize::MAX, usize::MAX / 2, u32::MAX as usize, u32::MAX as usize + 1]);
+        let mut gids: Vec<u32> = (0..entries as u32 + 2).collect();
+        gids.extend([u32::MAX, u32::MAX - 1, 0x7FFF_FFFF, 0xFFFF, 0x10000]);
+        // the loca bytes' variants against the fixed glyf, and the glyf truncated against the fixed loca
+        for (vi, v) in variants(&mut ctx.rng, &loca, if t { 8 } else { 3 }).iter().enumerate() {
+            let flip = vi % 5 == 4;
+            ask_loca(ctx, long ^ flip, v, &glyf, &idxs, &gids);
+        }
+        for cut in [glyf.len().saturating_sub(1), glyf.len() / 2, 0] {
+            ask_loca(ctx, long, &loca.v, &glyf[..cut], &idxs, &gids);
+        }
+        ctx.count("gen.loca");
+    }
+    // exhaustive tiny locas: 0..=3 entries from a small value set around an 8 byte glyf
+    for long in [false, true] {
+        for n_entries in 0..=3usize {
+            for pat in 0..4u32.pow(n_entries as u32) {
+                for odd in [false, true] {
+                    let mut loca = vec![];
+                    for i in 0..n_entries {
+                        let d = (pat >> (2 * i)) & 3;
+                        if long {
+                            loca.extend_from_slice(&[0u32, 2, 8, 9][d as usize].to_be_bytes());
+                        } else {
+                            loca.extend_from_slice(&[0u16, 1, 4, 5][d as usize].to_be_bytes());
+                        }
+                    }
+                    if odd {
+                        loca.push(1);
+                    }
+                    ask_loca(ctx, long, &loca, &[0, 0, 0, 0, 0, 0, 0, 0, 0, 0][..8], &[0, 1, 2, 3, 4], &[0, 1, 2, 3, u32::MAX]);
+                }
+            }
+        }
+    }
+    ctx.count("gen.loca-tiny");
+}
